@@ -674,12 +674,19 @@ def render_fragment(gen, fname, fs):
     import copy
     from harness import py2lean
     mod = gen.mod
-    cnodes = mod.classes.get(fs['class'], [])
-    if len(cnodes) != 1:
-        raise py2lean.Py2LeanUnsupported(mod.relpath, 0, 'class %s not found exactly once' % fs['class'])
-    ms = [n for n in cnodes[0].body if isinstance(n, ast.FunctionDef) and n.name == fs['method']]
-    if len(ms) != 1:
-        raise py2lean.Py2LeanUnsupported(mod.relpath, cnodes[0], 'method %s.%s not found exactly once' % (fs['class'], fs['method']))
+    if 'func' in fs:
+        # a module-level function instead of a method
+        ms = mod.funcs.get(fs['func'], [])
+        if len(ms) != 1:
+            raise py2lean.Py2LeanUnsupported(mod.relpath, 0, 'function %s not found exactly once' % fs['func'])
+        fs = dict(fs, **{'class': '<module>', 'method': fs['func']})
+    else:
+        cnodes = mod.classes.get(fs['class'], [])
+        if len(cnodes) != 1:
+            raise py2lean.Py2LeanUnsupported(mod.relpath, 0, 'class %s not found exactly once' % fs['class'])
+        ms = [n for n in cnodes[0].body if isinstance(n, ast.FunctionDef) and n.name == fs['method']]
+        if len(ms) != 1:
+            raise py2lean.Py2LeanUnsupported(mod.relpath, cnodes[0], 'method %s.%s not found exactly once' % (fs['class'], fs['method']))
     meth = ms[0]
     body = list(meth.body)
     if body and isinstance(body[0], ast.Expr) and isinstance(body[0].value, ast.Constant) and isinstance(body[0].value.value, str):
@@ -695,11 +702,14 @@ def render_fragment(gen, fname, fs):
         first, last = part[0].lineno, part[-1].end_lineno
         new_body = part + [ret]
     else:
-        found = [n for n in ast.walk(meth) if type(n).__name__ == fs['expr']]
-        if len(found) != 1:
-            raise py2lean.Py2LeanUnsupported(mod.relpath, meth, 'method %s: %d expressions of type %s (expected one)'
-                                             % (fs['method'], len(found), fs['expr']))
-        node = copy.deepcopy(found[0])
+        found = sorted((n for n in ast.walk(meth) if type(n).__name__ == fs['expr']), key=lambda n: (n.lineno, n.col_offset))
+        want = fs.get('of')     # 'of': (k, total): the k-th (from 0, in source order) of exactly `total` such expressions
+        if want is None:
+            want = (0, 1)
+        if len(found) != want[1]:
+            raise py2lean.Py2LeanUnsupported(mod.relpath, meth, 'method %s: %d expressions of type %s (expected %d)'
+                                             % (fs['method'], len(found), fs['expr'], want[1]))
+        node = copy.deepcopy(found[want[0]])
         ret = ast.Return(value=node)
         ast.copy_location(ret, node)
         first, last = node.lineno, node.end_lineno
